@@ -235,10 +235,11 @@ func paramWrittenToTar(c *Ctx, fn *ssa.Function, p *ssa.Parameter, depth int) bo
 }
 
 func checkC03(c *Ctx, r *Report) {
-	r.Rules = []string{"O1 every digest is fed by the stream that is shipped and read only after it is complete", "O2 apk digests sit below the compressor; datahash/signed digest are the segment writers' results", "F7 md5sums names the header that was written", "F8 mtree verbs bound to the matching fields; .PKGINFO first; one size value", "F9 size accumulators are fed from the copied entries", "F8-line every shipped entry type gets an mtree line", "shipped-F12-apk the apk segments shipped are the buffers that were hashed (imported from C10)", "F9-files-only directories and links add nothing to the installed size"}
+	r.Rules = []string{"O1 every digest is fed by the stream that is shipped and read only after it is complete", "O2 apk digests sit below the compressor; datahash/signed digest are the segment writers' results", "F7 md5sums names the header that was written", "F8 mtree verbs bound to the matching fields; .PKGINFO first; one size value", "F9 size accumulators are fed from the copied entries", "F8-line every shipped entry type gets an mtree line", "shipped-F12-apk the apk segments shipped are the buffers that were hashed (imported from C10)", "F9-files-only directories and links add nothing to the installed size", "fresh-T6-no-carried-state no digest (or anything else) is kept in package-level state between builds (rule of C07)"}
 	r.Explanation = "Stream-coupling and ordering rules over go/ssa for every hash nfpm creates on a packaging path (internal/sign excluded). (O1) each hash must be fed in one of three coupled ways — a TeeReader on the very reader that io.Copy drains into the archive writer, an io.MultiWriter that also contains the archive/output writer and is the destination of one copy or the sink of the compressor, or Write of the same SSA value that is written to the archive — and never by a separate read of the data; every Sum is dominated by the completion of that feeding (the copy, or the Close of the compressor the hash sits under). (O2) in apk the hash is an element of the MultiWriter that is the gzip writer's sink, so it covers the bytes as shipped. (F7) the name printed into md5sums is the Name field of the header handed to WriteHeader. (F8) in the mtree line formats each key=%verb is bound to the like-named field, .PKGINFO's entry is put first, and the .PKGINFO size in the tar header and in the mtree is one value; digests go to the fields of their own algorithm. (F9) installed-size accumulators are fed from the entries' sizes, divided by 1024 for deb/ipk. Digest and size values themselves, and rpmpack's internal digests, are not computed."
 	r.Explanation += " (F8-line) the mtree line writer, evaluated for every entry type the archlinux payload writer ships, must reach a write. (shipped-F12-apk, imported from C10) the buffers the apk segments were hashed from are the ones concatenated into the package, all of them, on every path."
 	r.Explanation += " (F9-files-only) the payload writer is evaluated for every directory and link type: no addition whose addend derives from the entry's size is live with a value other than the constant zero."
+	r.Explanation += " (fresh-T6) rule of C07: a digest cached per source path would describe an earlier build's bytes."
 	r.Assumptions = []string{
 		"hash.Hash, io.TeeReader, io.MultiWriter and io.Copy behave as documented",
 		"rpm header/payload digests and sizes are computed inside rpmpack over the payload it writes (dependency)",
@@ -316,6 +317,10 @@ func checkC03(c *Ctx, r *Report) {
 	// the data segment whose digest .PKGINFO announces is the one shipped:
 	// the buffers the segments were written into are concatenated, all of
 	// them, on every path (shared with C10)
+	// a digest describes the bytes shipped by *this* build: nothing on the
+	// packaging paths keeps digests (or anything else) in package-level state
+	// for a later build (rule of C07)
+	checkNoCarriedState(c, r, "fresh-T6-no-carried-state")
 	r.Floor("shipped-F12-apk", importRules(c, r, checkC10, "shipped-", []string{"F12-apk"}, func(o Obligation) bool {
 		return strings.Contains(o.Construct, "segment order of concatenation")
 	}, "apk segments"), 1)
